@@ -11,7 +11,7 @@ from __future__ import annotations
 import ast
 
 from ..paths import enumerate_paths, path_calls
-from ..program import AnalysisError, Program, unparse, short, walk_no_nested
+from ..program import AnalysisError, Program, unparse, short, walk_no_nested, inline_helpers
 from ..report import Report
 from ..words import Ev, Word, words, int_threshold
 
@@ -118,7 +118,7 @@ def _is_timer_step(prog: Program, fi, var: str) -> bool:
 
 
 def main_loop_analysis(prog: Program, rep: Report, rule: str = "R19.2") -> None:
-    fi = prog.func("main.main")
+    fi = inline_helpers(prog, prog.func("main.main"))
 
     def classify(f, call, env):
         fn = call.func
